@@ -221,7 +221,8 @@ CLAIMED = {
        'downstream scripts behind real StaticSmtpRelay / StaticLmtpRelay + ProxyQueue + edge); http_hop_delivered_means_custody / '
        'http_hop_failure_class (C11 o C02: HttpRelay -> WsgiEdge -> Queue: delivered only with every envelope written on the receiving host; a 4xx QueueError '
        'stays a transient relay failure, a 5xx a permanent one, an exception a transient one; tied by a real HttpRelay against a real WsgiEdge on loopback over a failing store); smtp_hop_delivered_means_custody (the same for '
-       'StaticSmtpRelay -> SmtpEdge -> Queue, tied by the real three over a socketpair). Tied to the code by the real SmtpEdge (client socket on a socketpair), '
+       'StaticSmtpRelay -> SmtpEdge -> Queue, tied by the real three over a socketpair); delivered_upstream_never_lost_downstream (the chain across '
+       'two hosts: what host A\'s relay reports delivered is, on host B, delivered / failed-and-bounced / outstanding with a next step, in every later state). Tied to the code by the real SmtpEdge (client socket on a socketpair), '
        'WsgiEdge (WSGI call and pywsgi on loopback), Queue + RecipientDomainSplit over a store whose k-th write fails or is held, and ProxyQueue '
        'over scripted relay results: all outcome vectors for n <= 3, storage contents read at the instant the reply arrives, reply absent while a '
        'write is held; and 400 (thorough 6000) random enqueue calls through a real edge into a real Queue with chains of the built-in policies, '
